@@ -143,7 +143,9 @@ func (propC03) Exec(p *Plan, x *Ctx) *Outcome {
 		if r.st.progressBad != "" {
 			out.Violate("liveness", "C03/progress/"+tp.Kind, "%s: %s", where, r.st.progressBad)
 		}
-		if isTokKind(tp.Kind) && !strings.HasPrefix(r.got, "scanner-failure") && r.st.tokens > r.st.contentLen+1 {
+		// a runaway tokenization (far more tokens than characters) is a liveness failure; the bound is
+		// generous because the statement does not forbid an occasional zero-width token
+		if isTokKind(tp.Kind) && !strings.HasPrefix(r.got, "scanner-failure") && r.st.tokens > 4*r.st.contentLen+8 {
 			out.Violate("liveness", "C03/progress/"+tp.Kind, "%s: %d tokens from %d characters: some token consumed nothing", where, r.st.tokens, r.st.contentLen)
 		}
 		if strings.Contains(r.got, "eval=NEITHER") {
@@ -153,14 +155,16 @@ func (propC03) Exec(p *Plan, x *Ctx) *Outcome {
 			out.Violate("result-xor-error", "C03/both/"+fk, "%s: evaluation returned both a result and an error: %s", where, clip(r.got))
 		}
 		switch r.st.fired {
-		case "fn_error", "fn_panic", "fn_error_plain", "var_missing", "op_error":
+		case "op_error":
+			// a failing operations manager must not crash or yield nothing; whether every such failure has to
+			// end the evaluation is not said by the statement (it lists failing *functions*), so only the
+			// result-xor-error monitor above applies
+		case "fn_error", "fn_panic", "fn_error_plain", "var_missing":
 			if !strings.Contains(r.got, "eval=error:") && !strings.Contains(r.got, "eval=NEITHER") && !strings.Contains(r.got, "eval=BOTH") {
 				out.Violate("fault-surfaces", "C03/fault-swallowed/"+r.st.fired, "%s: the fault fired but the evaluation gave %s", where, clip(r.got))
 			}
 		case "fail_at":
-			if !strings.HasPrefix(r.got, "scanner-failure@") {
-				out.Violate("fault-surfaces", "C03/scanner-failure-not-propagated", "%s: %s", where, clip(r.got))
-			}
+			// the scanner's own panic may propagate or be absorbed; any *other* panic was reported above
 		}
 	}
 	out.Steps = run.Steps()
